@@ -17,8 +17,9 @@ inductive Cls
   | no0        -- riscv Rno0
   | no02       -- riscv Rno02
   | pop        -- riscv Rpop: x8..x15, three-bit field
-  | pops       -- riscv Rpops / Rpops2 (without the "differs from the previous" test): s0..s7 = x8, x9, x18..x23, three-bit field
-deriving DecidableEq, Repr, Inhabited
+  | pops       -- riscv Rpops: s0..s7 = x8, x9, x18..x23, three-bit field
+  | popsNe (prev : Nat)   -- riscv Rpops2: as Rpops and different from the previous operand's register
+deriving Repr, Inhabited
 
 /-- accepted? -/
 def Cls.ok (c : Cls) (embedded : Bool) (n : BitVec 32) : Bool :=
@@ -32,6 +33,7 @@ def Cls.ok (c : Cls) (embedded : Bool) (n : BitVec 32) : Bool :=
   | .no02 => !(n == 0) && !(n == 2) && inFile
   | .pop => (8 : BitVec 32).ule n && n.ule 15
   | .pops => ((1 : BitVec 32) <<< n) &&& 0x00FC0300 != 0
+  | .popsNe prev => (((1 : BitVec 32) <<< n) &&& 0x00FC0300 != 0) && !(n == BitVec.ofNat 32 prev)
 
 /-- the field value -/
 def Cls.code (c : Cls) (n : BitVec 32) : BitVec 32 :=
@@ -39,7 +41,7 @@ def Cls.code (c : Cls) (n : BitVec 32) : BitVec 32 :=
   | .any | .noZr | .no0 | .no02 => n &&& 0x1F
   | .even => n &&& 0x1E
   | .low16 => n &&& 0xF
-  | .pop | .pops => n &&& 7
+  | .pop | .pops | .popsNe _ => n &&& 7
 
 def place (x : BitVec 32) (o : Nat) : BitVec 32 := x <<< o
 
